@@ -8,11 +8,11 @@
   `parts xs range` is the record sequence of the caller's loop (repeated calls advancing by `raw`).
   The C++ layer (mpt++/linepart.cpp `linepart::array::set/apply` with its merge path, the part view of
   mpt++/polyline.cpp) is modelled in Impl/LinepartArray.lean and tied to the code by the second driver part
-  (harness/drvxx_linepart.cpp); its partition property is stated (`merge_statement`) and checked per script by
-  the model driver, not proved.  `polyline::set` / `apply_data` / `value_store` are not modelled.
+  (harness/drvxx_linepart.cpp); for the way `polyline::set` uses it — parts for `n` points, then ONE dimension
+  applied — the whole property is proved (`merge_partition`), for further dimensions it is checked per script by
+  the model driver.  `polyline::set` / `apply_data` / `value_store` are not modelled.
 -/
-import MptModel.Lemmas.LinepartFlag
-import MptModel.Impl.LinepartArray
+import MptModel.Lemmas.LinepartMerge
 
 namespace Mpt.C18
 open Mpt.Visible Mpt.Linepart
@@ -178,14 +178,72 @@ theorem no_range_part (xs : List Rat) :
     linepartLinear xs none = { raw := min 65535 xs.length, usr := min 65535 xs.length, cut := 0, trim := 0 } :=
   linear_none xs
 
-/-! ### Stated, not proved (checked per script by the model driver and tied to the code by the C++ driver part) -/
+/-- **Fractions of ALL records**: in the records of the repeated calls every stored cut / trim of a part
+    that draws at least two points and starts / ends outside the range decodes to the crossing fraction of
+    its first / last drawn segment with the range boundary up to one unit of the 16-bit encoding
+    (`|real code − t| ≤ 1/65536`), and is not 0. -/
+theorem fractions_all_records (xs : List Rat) (r : Range) :
+    CrossingsCoded (fun c => real (c : Int)) r xs (parts xs (some r)) 0 :=
+  partsAux_coded r xs xs.length xs 0 (by intro j; simp) (Nat.le_refl _)
 
-/-- the merge path of `linepart::array::apply` (as `polyline::set` uses it: parts for `n` points first, then
-    one dimension applied): the parts still consume every point once, and every point visible in the range is
-    drawn by exactly one part, with visible interiors -/
-def merge_statement : Prop :=
-  ∀ (xs : List Rat) (r : Range) (ps : List Part),
-    arrayApply (arraySet xs.length) xs (some r) = some ps →
-      (ps.map (·.raw)).sum = xs.length ∧ (∀ i, insideAt r xs i → drawnCount ps 0 i = 1) ∧ InteriorVisible r xs ps 0
+example : (parts [1/2, 2, 2, -1, 1/2] (some ⟨0, 1⟩)).map (fun p => (p.cut, p.trim)) = [(0, 43690), (43690, 0)] := by
+  decide +kernel
+
+/-- **Stability of the code under a perturbed quotient** (what a `double` evaluation of the fraction can do):
+    the code is monotone in the quotient, and a quotient that is off by `d` moves the decoded fraction by at
+    most `d` plus two units of the encoding.  The `double` evaluation `(bound − x0)/(x1 − x0)` has a relative
+    error of a few `2^-53` (two roundings), far below one unit `2^-16`: the stored code is the exact code or its
+    neighbour (assumption on IEEE arithmetic, not proved here). -/
+theorem code_monotone (f g : Rat) (h0 : 0 ≤ f) (hfg : f ≤ g) (h1 : g ≤ 1) :
+    code f ≤ code g ∧ real (code g) - real (code f) ≤ (g - f) + 2 / 65536 := by
+  have hm := code_mono f g h0 hfg h1
+  refine ⟨hm, ?_⟩
+  have a := code_accuracy f h0 (Rat.le_trans hfg h1)
+  have b := code_accuracy g (Rat.le_trans h0 hfg) h1
+  obtain ⟨a1, a2⟩ := a
+  obtain ⟨b1, b2⟩ := b
+  grind
+
+/-- **The consumer reports visible points only**: for the records of the repeated calls the points
+    `polyline::part::points()` hands out — the drawn points of a part without the first one when a cut is
+    stored and without the last one when a trim is stored (`polyParts_spans`: these are exactly the spans the
+    model of the part view computes) — are all visible. -/
+theorem consumer_points_visible (xs : List Rat) (r : Range) :
+    ReportedVisible r xs (parts xs (some r)) 0 ∧
+    ∀ (ps : List Part) (t : Nat),
+      (polyParts ps t).map (fun e => ((e.1 : Int) - e.2.2.1, e.2.1, e.2.2.2)) =
+        ps.map (fun p => (((if p.cut ≠ 0 then 1 else 0 : Nat) : Int),
+          (p.usr : Int) - (if p.cut ≠ 0 then 1 else 0 : Nat) - (if p.trim ≠ 0 then 1 else 0 : Nat), p.usr)) :=
+  ⟨reported_visible r xs _ 0 (interior_visible xs r) (crossings_flagged xs r), polyParts_spans⟩
+
+example : polyParts (parts [-1, 1/2, 1/2, 2, 2, 1/2] (some ⟨0, 1⟩)) 0 = [(1, 2, 0, 4), (5, 1, 4, 2)] := by
+  decide +kernel
+
+/-! ### The merge path of `linepart::array::apply` -/
+
+/-- **Merge path**: `linepart::array::apply` on the parts `linepart::array::set` has made for the points (as
+    `polyline::set` uses it: parts for `n` points first, then one dimension applied — chunks of 65533 points,
+    each re-split by the calls and re-joined where nothing is hidden in between) yields records with the whole
+    property: they consume every point exactly once, each at least one; every visible point is drawn by
+    exactly one part; interiors are visible; crossings are marked; hence the consumer reports visible points
+    only.  (Applying a FURTHER dimension to such records is checked per script by the model driver.) -/
+theorem merge_partition (xs : List Rat) (r : Range) (ps : List Part)
+    (h : arrayApply (arraySet xs.length) xs (some r) = some ps) :
+    (ps.map (·.raw)).sum = xs.length ∧ (∀ p ∈ ps, 0 < p.raw) ∧
+    (∀ i, insideAt r xs i → drawnCount ps 0 i = 1) ∧ InteriorVisible r xs ps 0 ∧ Flagged r xs ps 0 ∧
+    ReportedVisible r xs ps 0 := by
+  obtain ⟨g1, g2, g3, g4, g5⟩ := merge_good xs r ps h
+  refine ⟨g1, g2, ?_, g4, g5, reported_visible r xs ps 0 g4 g5⟩
+  intro i hin
+  rw [g3 i hin, if_pos]
+  obtain ⟨x, hx, _⟩ := hin
+  exact (List.getElem?_eq_some_iff.1 hx).1
+
+example : arrayApply (arraySet 6) [-1, 1/2, 1/2, 2, 2, 1/2] (some ⟨0, 1⟩)
+    = some [{ raw := 4, usr := 4, cut := 43690, trim := 43690 }, { raw := 2, usr := 2, cut := 43690, trim := 0 }] := by
+  decide +kernel
+
+example : arrayApply (arraySet 4) [1/2, 1/2, 1/2, 2] (some ⟨0, 1⟩) = some [{ raw := 4, usr := 4, cut := 0, trim := 43690 }] := by
+  decide +kernel
 
 end Mpt.C18
